@@ -446,6 +446,12 @@ func c13Run(c *Ctx) {
 		// is opened again later: its entries still count once each
 		text += r.Pick([]string{"; nothing yet\n", "", "# later\n\n"})
 		text += "[" + secName + "]\n" + strings.Join(iniLines, "\n") + "\n"
+	} else if desc := se.groups[0].Desc; secName != "" && !se.pure && len(iniLines) >= 2 && desc != "" && len(secName) >= len(desc) && strings.EqualFold(secName[len(secName)-len(desc):], desc) && flipCase(desc) != "" && r.Chance(1, 2) {
+		// the same group addressed by two spellings of its section name (descriptions are matched without regard
+		// to case): two sections for the reader, one group - the entries accumulate across them
+		k := r.Range(1, len(iniLines)-1)
+		alt := secName[:len(secName)-len(desc)] + flipCase(secName[len(secName)-len(desc):])
+		text += strings.Join(iniLines[:k], "\n") + "\n[" + alt + "]\n" + strings.Join(iniLines[k:], "\n") + "\n"
 	} else if secName != "" && len(iniLines) >= 2 && r.Chance(1, 3) {
 		// the same section re-opened: its entries still count once each
 		k := r.Range(1, len(iniLines)-1)
